@@ -9,30 +9,43 @@ namespace TlxVerif.C04
 
 /-! ### results that are either good or out of fuel -/
 
-def Safe {α} (x : M α) (P : α → Prop) : Prop :=
+/-- `af = true`: an answer with property `P`, or out of fuel; `af = false`: an answer with `P` -/
+def Safe {α} (af : Bool) (x : M α) (P : α → Prop) : Prop :=
   match x with
   | .ok a => P a
-  | .error e => e = Err.fuel
+  | .error e => af = true ∧ e = Err.fuel
 
-theorem Safe.pure {α} {a : α} {P : α → Prop} (h : P a) : Safe (pure a : M α) P := h
+variable {af : Bool}
 
-theorem Safe.ok {α} {a : α} {P : α → Prop} (h : P a) : Safe (.ok a : M α) P := h
+theorem Safe.total {α} {x : M α} {P : α → Prop} (h : Safe false x P) : ∃ a, x = .ok a ∧ P a := by
+  cases x with
+  | ok a => exact ⟨a, rfl, h⟩
+  | error e => exact absurd h.1 (by decide)
+
+theorem Safe.weaken {α} {x : M α} {P : α → Prop} (h : Safe false x P) : Safe af x P := by
+  cases x with
+  | ok a => exact h
+  | error e => exact absurd h.1 (by decide)
+
+theorem Safe.pure {α} {a : α} {P : α → Prop} (h : P a) : Safe af (pure a : M α) P := h
+
+theorem Safe.ok {α} {a : α} {P : α → Prop} (h : P a) : Safe af (.ok a : M α) P := h
 
 theorem Safe.bind {α β} {x : M α} {f : α → M β} {P : α → Prop} {Q : β → Prop}
-    (hx : Safe x P) (hf : ∀ a, P a → Safe (f a) Q) : Safe (x >>= f) Q := by
+    (hx : Safe af x P) (hf : ∀ a, P a → Safe af (f a) Q) : Safe af (x >>= f) Q := by
   cases x with
   | ok a => exact hf a hx
   | error e => exact hx
 
-theorem Safe.mono {α} {x : M α} {P Q : α → Prop} (hx : Safe x P) (h : ∀ a, P a → Q a) : Safe x Q := by
+theorem Safe.mono {α} {x : M α} {P Q : α → Prop} (hx : Safe af x P) (h : ∀ a, P a → Q a) : Safe af x Q := by
   cases x with
   | ok a => exact h a hx
   | error e => exact hx
 
-theorem Safe.of_ok {α} {x : M α} {P : α → Prop} {a : α} (hx : Safe x P) (h : x = .ok a) : P a := by
+theorem Safe.of_ok {α} {x : M α} {P : α → Prop} {a : α} (hx : Safe af x P) (h : x = .ok a) : P a := by
   subst h; exact hx
 
-theorem Safe.liftO {α} {o : Option α} {e : Err} {P : α → Prop} (h : ∃ a, o = some a ∧ P a) : Safe (liftO e o) P := by
+theorem Safe.liftO {α} {o : Option α} {e : Err} {P : α → Prop} (h : ∃ a, o = some a ∧ P a) : Safe af (liftO e o) P := by
   obtain ⟨a, rfl, hp⟩ := h
   exact hp
 
@@ -65,8 +78,8 @@ theorem All2.imp {α β} {P Q : α → β → Prop} {l : List α} {bs : List β}
 
 /-- `mapM` over a list: every element safe ⇒ the whole list safe, element-wise -/
 theorem Safe.mapM {α β} {f : α → M β} {P : α → β → Prop} :
-    ∀ (l : List α), (∀ a ∈ l, Safe (f a) (P a)) →
-      Safe (l.mapM f) (fun bs => All2 P l bs)
+    ∀ (l : List α), (∀ a ∈ l, Safe af (f a) (P a)) →
+      Safe af (l.mapM f) (fun bs => All2 P l bs)
   | [], _ => by rw [List.mapM_nil]; exact All2.nil
   | a :: l, h => by
     rw [List.mapM_cons]
@@ -163,7 +176,7 @@ theorem getKey_inRange {p s : Str} (h : InRange p s) : ∃ k, getKey? s p.length
 
 /-- reading the keys of a sort range succeeds; the keys are aligned with the strings -/
 theorem keysOf_safe {p : Str} : ∀ {strs : List Str}, RangeOk p strs →
-    Safe (keysOf strs p.length) (fun keys => All2 (fun s k => getKey? s p.length = some k) strs keys)
+    Safe af (keysOf strs p.length) (fun keys => All2 (fun s k => getKey? s p.length = some k) strs keys)
   | strs, h => by
     unfold keysOf
     refine Safe.mapM strs (fun s hs => ?_)
